@@ -7,7 +7,7 @@ from . import C03
 from .lib import decision, guards, paths, reach
 from .lib.mir import AnchorLost
 
-CONFIGS_QUICK = ["A"]
+CONFIGS_QUICK = ["A", "R"]
 CONFIGS_THOROUGH = ["A", "R", "NOAPI"]
 TECHNIQUE = "call-graph reachability from the request-time file handler to file-system APIs (must be empty) and who-may-call of the file reads; registration shape of Dir::apply; mime literal table"
 LEVEL_TEXT = ('Decides clauses C19-a/b/c: from the request-time closure of the static file handler no function of std::fs, std::io, std::path or std::env is reachabl'
@@ -287,6 +287,7 @@ def c19c(ck, prog):
     nw = [f for f in prog.fns.values() if f.name == "new" and f.self_ty and "StaticFileHandler" in f.self_ty]
     if nw:
         f = nw[0]
+        f = prog.inlined(f, 2, lambda caller, callee: callee.crate == caller.crate and callee.self_ty == caller.self_ty and callee.key != caller.key and len(callee.blocks) < 80)     # private helpers of the handler type
         sp_ = [c for c in f.calls() if c.name in ("rsplit_once", "split_once", "rsplit", "split")]
         ok = len(sp_) == 1 and sp_[0].name == "rsplit_once" and (f.const_args(sp_[0])[1] or {}).get("ch") == "."
         g = f.calls_to(r"mime::get_by_extension$")
@@ -306,16 +307,18 @@ def c19d(ck, prog):
     if not nw:
         raise AnchorLost("StaticFileHandler::new not found")
     f = nw[0]
+    f = prog.inlined(f, 2, lambda caller, callee: callee.crate == caller.crate and callee.self_ty == caller.self_ty and callee.key != caller.key and len(callee.blocks) < 80)     # the read may sit in a private helper
     arcs = [c for c in f.calls() if c.name in ("new", "from") and re.search(r"sync::Arc|boxed::Box|Cow", c.callee or "") and c.args and re.search(r"Vec<u8>|\[u8\]", " ".join(c.targs))]
     if not arcs:
         # fs::read result stored directly
         arcs = [c for c in f.calls() if c.name in ("new",) and "Arc" in (c.callee or "")]
     if len(arcs) != 1:
         raise AnchorLost("the content snapshot is not stored by exactly one Arc::new in StaticFileHandler::new (%d)" % len(arcs))
-    root = f.origin(arcs[0].args[0])
-    if not root or root[-1][0] != "call":
-        raise AnchorLost("the stored content is not a locally created buffer")
-    rc = root[-1][1]
+    # (through Ok(..)/`?` wrappers when the buffer comes out of a spliced-in helper)
+    leaves = [lv for lv in paths.leaf_values(f, arcs[0].args[0]) if lv[0] == "call"]
+    if len(leaves) != 1:
+        raise AnchorLost("the stored content is not one locally created buffer (%d candidate origins)" % len(leaves))
+    rc = leaves[0][1]
     if re.search(r"fs::read$", rc.callee or ""):
         ck.ob(R, "snapshot:unmodified", True, f.loc(rc.sp), how="content = fs::read(path), stored as is")
         return
